@@ -64,7 +64,8 @@ class SamplerMonitor:
         self.sh, self.cr = sh, cr
         self.real = cr.prior_combinations_sample
         self.selections = Counter()          # reference state: how often each key was actually selected
-        self.owner = {}                      # key -> the (stable, duplicate-free) candidate set it was first offered in
+        self.owner = {}                      # key -> id of the (stable, duplicate-free) candidate set it was first offered in
+        self.list_ids = {}
         self.calls = 0
         cr.prior_combinations_sample = self
 
@@ -75,6 +76,7 @@ class SamplerMonitor:
         """Start a new history from the state of a fresh process (keeps the snapshots small)."""
         self.counter().clear()
         self.owner.clear()
+        self.list_ids.clear()
 
     def __call__(self, combinations, args):
         sh = self.sh
@@ -110,11 +112,10 @@ class SamplerMonitor:
         self.selections.update(out)
         # spread over a stable duplicate-free list
         if dupfree and offered:
-            key = frozenset(offered)
+            key = self.list_ids.setdefault(frozenset(offered), len(self.list_ids))      # small integer id of this candidate set
             overlapping = False
             for k in offered:
-                owner = self.owner.setdefault(k, key)
-                if owner != key:
+                if self.owner.setdefault(k, key) != key:
                     overlapping = True
             vals = [after.get(k, 0) for k in offered]
             if not overlapping:
